@@ -208,7 +208,8 @@ w("C15", "twin: deepcopy imported name", "pandera/api/dataframe/container.py", "
 
 # ---- C16 -------------------------------------------------------------------------------------
 w("C16", "parser override guard removed again", "pandera/api/dataframe/model.py",
-  "                if attr_name in method_names:  # parser overridden by subclass\n                    continue\n", "")
+  "                if attr_name in method_names:  # overridden by subclass\n                    continue\n                method_names.add(attr_name)\n                parser_info = getattr(",
+  "                method_names.add(attr_name)\n                parser_info = getattr(")
 w("C16", "Config.ordered not forwarded", "pandera/api/dataframe/model.py", '                "ordered": cls.__config__.ordered,\n', "")
 w("C16", "le dispatched to less_than", "pandera/api/dataframe/model_components.py", '"le": Check.less_than_or_equal_to,', '"le": Check.less_than,')
 w("C16", "column_properties forgets default", "pandera/api/dataframe/model_components.py",
@@ -386,3 +387,21 @@ w("C04", "frame re-bound to the array-level result without a kind test again", "
   "                    if validated_obj is not None and not schema.regex:\n                        check_obj = validated_obj\n                    elif validated_obj is not None:")
 w("C04", "frame re-bound to a copy of the array-level result", "pandera/backends/pandas/components.py",
   "                        check_obj = check_obj[~check_obj.index.isin(dropped)]\n", "                        check_obj = validated_obj.copy()\n")
+
+# ---- third hunt wave, continued (e3ec463, 2b58729, 15e1875, b48ef30) ---------------------------------------------------
+w("C16", "check names recorded only after the kind filter again", "pandera/api/dataframe/model.py",
+  "                if attr_name in method_names:  # overridden by subclass\n                    continue\n                method_names.add(attr_name)\n                check_info = getattr(attr_value, key, None)\n                if not isinstance(check_info, CheckInfo):\n                    continue\n",
+  "                check_info = getattr(attr_value, key, None)\n                if not isinstance(check_info, CheckInfo):\n                    continue\n                if attr_name in method_names:  # overridden by subclass\n                    continue\n                method_names.add(attr_name)\n")
+w("C16", "parser names recorded only after the kind filter again", "pandera/api/dataframe/model.py",
+  "                if attr_name in method_names:  # overridden by subclass\n                    continue\n                method_names.add(attr_name)\n                parser_info = getattr(attr_value, key, None)\n                if not isinstance(parser_info, ParserInfo):\n                    continue\n",
+  "                parser_info = getattr(attr_value, key, None)\n                if not isinstance(parser_info, ParserInfo):\n                    continue\n                if attr_name in method_names:  # overridden by subclass\n                    continue\n                method_names.add(attr_name)\n")
+w("C18", "strict raised at every depth again (pandas)", BP + "container.py",
+  "            if schema_level and schema.strict is True and not is_schema_col:", "            if schema.strict is True and not is_schema_col:")
+w("C18", "ordered raised at every depth again (polars)", BL + "container.py",
+  "                if schema_level and next_ordered_col != column:", "                if next_ordered_col != column:")
+w("C18", "typed frame marked as validated while validation is disabled again", "pandera/typing/common.py",
+  "                if not get_config_context().validation_enabled:\n                    # nothing was validated: the object must not look validated\n                    return\n", "")
+w("C19", "group keys unwrapped without a tuple test again (returned mapping)", BP + "checks.py",
+  "                (k[0] if isinstance(k, tuple) and len(k) == 1 else k): v\n", "                (k[0] if len(k) == 1 else k): v\n")
+w("C19", "group keys unwrapped without a tuple test again (valid keys)", BP + "checks.py",
+  "            k[0] if isinstance(k, tuple) and len(k) == 1 else k\n            for k, _ in groupby_obj", "            k[0] if len(k) == 1 else k\n            for k, _ in groupby_obj")
